@@ -56,7 +56,21 @@ type World struct {
 	// points[i] says whether preemption point i yields in this run; set by the
 	// scheduler before the system under test starts.
 	points []bool
+
+	// R10: iterations since the last yield point, loops that have become
+	// yield points, and how many of them there are
+	loopRun  int
+	hotLoops []bool
+	HotLoops int
+	killHot  bool
 }
+
+// KillHotLoops makes every goroutine that is going round a loop which has
+// become a yield point end (runtime.Goexit, deferred calls run) the next time
+// it gets there. For the end of a run that hit the step cap.
+//
+//go:norace
+func (w *World) KillHotLoops() { w.killHot = true }
 
 // pointNames is filled in by the generated points_gen.go of the scratch copy.
 var pointNames []string
@@ -86,6 +100,47 @@ func Point(id int) {
 		return
 	}
 	w.park(w.self("point"), "point", pointNames[id], nil, false, nil)
+}
+
+// loopNames is filled in by the generated points_gen.go of the scratch copy.
+var loopNames []string
+
+// loopYieldAfter is the number of loop iterations, counted over all loops and
+// without any yield point in between, after which the loop that is running
+// becomes a yield point for the rest of the run.
+const loopYieldAfter = 50000
+
+// Loop is spliced at the head of every loop body of the system under test
+// (R10). Only one goroutine of the system under test runs between two yield
+// points, so one counter per world is enough; park resets it.
+//
+//go:norace
+func Loop(id int) {
+	w := cur
+	if w == nil || id >= len(loopNames) {
+		return
+	}
+	if w.hotLoops != nil && w.hotLoops[id] {
+		if !w.killHot {
+			w.park(w.self("loop"), "loop", loopNames[id], nil, false, nil)
+		}
+		if w.killHot {
+			// the run is over and was judged; a goroutine that never leaves
+			// this loop would keep the bubble from ending
+			runtime.Goexit()
+		}
+		return
+	}
+	w.loopRun++
+	if w.loopRun < loopYieldAfter {
+		return
+	}
+	if w.hotLoops == nil {
+		w.hotLoops = make([]bool, len(loopNames))
+	}
+	w.hotLoops[id] = true
+	w.HotLoops++
+	w.park(w.self("loop"), "loop", loopNames[id], nil, false, nil)
 }
 
 const maxParked = 8192
@@ -294,6 +349,7 @@ func (w *World) park(a *Actor, kind, site string, lock interface{}, rlock bool, 
 	if a == w.schedActor() {
 		return
 	}
+	w.loopRun = 0
 	p := &Parked{Actor: a.Label, Kind: kind, Site: site, A: a, lock: lock, rlock: rlock, Ready: ready}
 	raceDisable()
 	p.ch = make(chan struct{}, 1)
